@@ -27,7 +27,7 @@ namespace ChemModel.EqSolve
 
 /-- the Python exception classes that the modelled code can raise -/
 inductive Err where
-  | valueError | zeroDivisionError | notImplementedError | indexError | keyError
+  | valueError | zeroDivisionError | notImplementedError | indexError | keyError | typeError
   deriving DecidableEq, Repr
 
 def Err.name : Err → String
@@ -36,6 +36,7 @@ def Err.name : Err → String
   | .notImplementedError => "NotImplementedError"
   | .indexError => "IndexError"
   | .keyError => "KeyError"
+  | .typeError => "TypeError"
 
 /-- Python sequence indexing `l[i]` with an `int` (negative counts from the end); `none` = IndexError -/
 def pyIndex {β : Type} (l : List β) (i : Int) : Option β :=
@@ -430,5 +431,45 @@ def equilibriumResidualMulti (rc c0 : List α) (stoich : List (List Int)) (K : L
       pure (k - q)
 
 end numeric2
+
+/-! ### numpy-specific behaviour of `_result_is_sane` and `dissolved` (round 9, review 2-F) -/
+
+section nan
+variable {α : Type} [NatCast α] [IntCast α] [Add α] [Sub α] [Mul α] [Div α] [Neg α]
+  [LT α] [DecidableLT α] [DecidableEq α]
+
+/-- `np.any(x > bounds*(1+rtol))` when `x` may contain NaN (`none`): every comparison with NaN is False -/
+def tooMuchNan (rtol : α) : List (Option α) → List (Option α) → Bool
+  | x :: xs, b :: bs =>
+    (match x, b with
+     | some v, some b => decide (b * (((1 : Nat) : α) + rtol) < v)
+     | _, _ => false) || tooMuchNan rtol xs bs
+  | _, _ => false
+
+/-- `_result_is_sane(init, x, rtol)` on a float array with NaN entries (`none`): `nan < 0` and `nan > bound` are both False, so a NaN entry
+    is never a reason to call the result insane — the real code returns True for `[5, 6, nan]` and even for `[nan, nan, nan]` -/
+def resultIsSaneNan (rtol : α) (comps : List (Comp α)) (init : List α) (x : List (Option α)) : Except Err Bool := do
+  let ub ← upperConcBounds comps init
+  if x.length ≠ ub.length then throw .valueError
+  else
+    let negConc := x.any fun xi => match xi with
+      | some v => decide (v < ((0 : Nat) : α))
+      | none => false
+    pure (!(negConc || tooMuchNan rtol x ub))
+
+end nan
+
+/-- `EqSystem.dissolved(concs)` for an INTEGER numpy array: `new_concs -= <float array>` cannot be cast back (`UFuncTypeError`, a TypeError)
+    as soon as one phase-transfer reaction is processed; without one the copy is returned unchanged.  (Not reachable through `root`, which
+    converts to float64; reachable by calling `dissolved` / `fw_cond` directly.) -/
+def dissolvedIntArray (phases : List Nat) : List Rxn → List Int → Except Err (List Int)
+  | [], c => pure c
+  | r :: rs, c => do
+    if (← hasPrecipitates phases r) then
+      let (_, _, sIdx) ← precipitateStoich phases r
+      match pyIndex c sIdx with
+      | none => throw .indexError
+      | some _ => throw .typeError
+    else dissolvedIntArray phases rs c
 
 end ChemModel.EqSolve
